@@ -26,9 +26,9 @@ theorem C02_missing_atom_name (s : AState) (vals : List (Option CifValue))
     (h : NoValue ((vals[19]?).join)) : RowRefused s (atomRowCore false s vals) := by
   obtain ⟨hv, he⟩ := colText_noValue _ h
   refine ⟨?_, ?_⟩
-  · unfold atomRowCore firstModelGate rowCells rowResNum rowChain reqCol
+  · unfold atomRowCore firstModelGate rowCells bindS rowResNum rowChain reqCol
     simp only [Bool.false_eq_true, if_false, hv, he]
-  · unfold atomRowCore firstModelGate rowCells rowResNum rowChain reqCol
+  · unfold atomRowCore firstModelGate rowCells bindS rowResNum rowChain reqCol
     simp only [Bool.false_eq_true, if_false, hv, he]
     exact ⟨_, rfl⟩
 
@@ -37,9 +37,9 @@ theorem C02_missing_atom_id (s : AState) (vals : List (Option CifValue)) (nm : L
     (h : NoValue ((vals[16]?).join)) : RowRefused s (atomRowCore false s vals) := by
   obtain ⟨hv, he⟩ := colText_noValue _ h
   refine ⟨?_, ?_⟩
-  · unfold atomRowCore firstModelGate rowCells rowResNum rowChain reqCol
+  · unfold atomRowCore firstModelGate rowCells bindS rowResNum rowChain reqCol
     simp only [Bool.false_eq_true, if_false, hv, he, h19]
-  · unfold atomRowCore firstModelGate rowCells rowResNum rowChain reqCol
+  · unfold atomRowCore firstModelGate rowCells bindS rowResNum rowChain reqCol
     simp only [Bool.false_eq_true, if_false, hv, he, h19]
     exact ⟨_, rfl⟩
 
@@ -48,9 +48,9 @@ theorem C02_missing_residue_name (s : AState) (vals : List (Option CifValue)) (n
     (h : NoValue ((vals[14]?).join)) : RowRefused s (atomRowCore false s vals) := by
   obtain ⟨hv, he⟩ := colText_noValue _ h
   refine ⟨?_, ?_⟩
-  · unfold atomRowCore firstModelGate rowCells rowResNum rowChain reqCol
+  · unfold atomRowCore firstModelGate rowCells bindS rowResNum rowChain reqCol
     simp only [Bool.false_eq_true, if_false, hv, he, h19, h16]
-  · unfold atomRowCore firstModelGate rowCells rowResNum rowChain reqCol
+  · unfold atomRowCore firstModelGate rowCells bindS rowResNum rowChain reqCol
     simp only [Bool.false_eq_true, if_false, hv, he, h19, h16]
     exact ⟨_, rfl⟩
 
@@ -63,10 +63,10 @@ theorem C02_missing_chain_id (s : AState) (vals : List (Option CifValue)) (nm id
   obtain ⟨hva, _⟩ := colText_noValue _ ha
   obtain ⟨hvl, hel⟩ := colText_noValue _ hl
   refine ⟨?_, ?_⟩
-  · unfold atomRowCore firstModelGate rowCells rowResNum rowChain reqCol
+  · unfold atomRowCore firstModelGate rowCells bindS rowResNum rowChain reqCol
     simp only [Bool.false_eq_true, if_false, hva, hvl, hel, h19, h16, h14]
     split <;> rfl
-  · unfold atomRowCore firstModelGate rowCells rowResNum rowChain reqCol
+  · unfold atomRowCore firstModelGate rowCells bindS rowResNum rowChain reqCol
     simp only [Bool.false_eq_true, if_false, hva, hvl, hel, h19, h16, h14]
     split
     · exact ⟨(colUsize ((vals[18]?).join)).err ++ (colIsize ((vals[22]?).join)).err, by simp only [List.append_assoc]⟩
@@ -85,20 +85,20 @@ theorem C02_missing_x (s : AState) (vals : List (Option CifValue)) (nm id rn : L
   obtain ⟨hv, he⟩ := colF64_noValue _ h
   rcases hc with ⟨c, hc⟩ | ⟨hn, c, hc⟩
   · refine ⟨?_, ?_⟩
-    · unfold atomRowCore firstModelGate rowCells rowResNum rowChain reqCol
+    · unfold atomRowCore firstModelGate rowCells bindS rowResNum rowChain reqCol
       simp only [Bool.false_eq_true, if_false, hv, he, h19, h16, h14, hc]
       split <;> rfl
-    · unfold atomRowCore firstModelGate rowCells rowResNum rowChain reqCol
+    · unfold atomRowCore firstModelGate rowCells bindS rowResNum rowChain reqCol
       simp only [Bool.false_eq_true, if_false, hv, he, h19, h16, h14, hc]
       split
       · exact ⟨(colUsize ((vals[18]?).join)).err ++ (colIsize ((vals[22]?).join)).err, by simp only [List.append_assoc]⟩
       · exact ⟨(colUsize ((vals[18]?).join)).err ++ ((colIsize ((vals[22]?).join)).err ++ (colIsize ((vals[21]?).join)).err),
           by simp only [List.append_assoc]⟩
   · refine ⟨?_, ?_⟩
-    · unfold atomRowCore firstModelGate rowCells rowResNum rowChain reqCol
+    · unfold atomRowCore firstModelGate rowCells bindS rowResNum rowChain reqCol
       simp only [Bool.false_eq_true, if_false, hv, he, h19, h16, h14, hc, hn]
       split <;> rfl
-    · unfold atomRowCore firstModelGate rowCells rowResNum rowChain reqCol
+    · unfold atomRowCore firstModelGate rowCells bindS rowResNum rowChain reqCol
       simp only [Bool.false_eq_true, if_false, hv, he, h19, h16, h14, hc, hn]
       split
       · exact ⟨(colUsize ((vals[18]?).join)).err ++ (colIsize ((vals[22]?).join)).err, by simp only [List.append_assoc]⟩
@@ -113,20 +113,20 @@ theorem C02_missing_y (s : AState) (vals : List (Option CifValue)) (nm id rn : L
   obtain ⟨hv, he⟩ := colF64_noValue _ h
   rcases hc with ⟨c, hc⟩ | ⟨hn, c, hc⟩
   · refine ⟨?_, ?_⟩
-    · unfold atomRowCore firstModelGate rowCells rowResNum rowChain reqCol
+    · unfold atomRowCore firstModelGate rowCells bindS rowResNum rowChain reqCol
       simp only [Bool.false_eq_true, if_false, hv, he, h19, h16, h14, hc, h24]
       split <;> rfl
-    · unfold atomRowCore firstModelGate rowCells rowResNum rowChain reqCol
+    · unfold atomRowCore firstModelGate rowCells bindS rowResNum rowChain reqCol
       simp only [Bool.false_eq_true, if_false, hv, he, h19, h16, h14, hc, h24]
       split
       · exact ⟨(colUsize ((vals[18]?).join)).err ++ (colIsize ((vals[22]?).join)).err, by simp only [List.append_assoc]⟩
       · exact ⟨(colUsize ((vals[18]?).join)).err ++ ((colIsize ((vals[22]?).join)).err ++ (colIsize ((vals[21]?).join)).err),
           by simp only [List.append_assoc]⟩
   · refine ⟨?_, ?_⟩
-    · unfold atomRowCore firstModelGate rowCells rowResNum rowChain reqCol
+    · unfold atomRowCore firstModelGate rowCells bindS rowResNum rowChain reqCol
       simp only [Bool.false_eq_true, if_false, hv, he, h19, h16, h14, hc, hn, h24]
       split <;> rfl
-    · unfold atomRowCore firstModelGate rowCells rowResNum rowChain reqCol
+    · unfold atomRowCore firstModelGate rowCells bindS rowResNum rowChain reqCol
       simp only [Bool.false_eq_true, if_false, hv, he, h19, h16, h14, hc, hn, h24]
       split
       · exact ⟨(colUsize ((vals[18]?).join)).err ++ (colIsize ((vals[22]?).join)).err, by simp only [List.append_assoc]⟩
@@ -141,20 +141,20 @@ theorem C02_missing_z (s : AState) (vals : List (Option CifValue)) (nm id rn : L
   obtain ⟨hv, he⟩ := colF64_noValue _ h
   rcases hc with ⟨c, hc⟩ | ⟨hn, c, hc⟩
   · refine ⟨?_, ?_⟩
-    · unfold atomRowCore firstModelGate rowCells rowResNum rowChain reqCol
+    · unfold atomRowCore firstModelGate rowCells bindS rowResNum rowChain reqCol
       simp only [Bool.false_eq_true, if_false, hv, he, h19, h16, h14, hc, h24, h25]
       split <;> rfl
-    · unfold atomRowCore firstModelGate rowCells rowResNum rowChain reqCol
+    · unfold atomRowCore firstModelGate rowCells bindS rowResNum rowChain reqCol
       simp only [Bool.false_eq_true, if_false, hv, he, h19, h16, h14, hc, h24, h25]
       split
       · exact ⟨(colUsize ((vals[18]?).join)).err ++ (colIsize ((vals[22]?).join)).err, by simp only [List.append_assoc]⟩
       · exact ⟨(colUsize ((vals[18]?).join)).err ++ ((colIsize ((vals[22]?).join)).err ++ (colIsize ((vals[21]?).join)).err),
           by simp only [List.append_assoc]⟩
   · refine ⟨?_, ?_⟩
-    · unfold atomRowCore firstModelGate rowCells rowResNum rowChain reqCol
+    · unfold atomRowCore firstModelGate rowCells bindS rowResNum rowChain reqCol
       simp only [Bool.false_eq_true, if_false, hv, he, h19, h16, h14, hc, hn, h24, h25]
       split <;> rfl
-    · unfold atomRowCore firstModelGate rowCells rowResNum rowChain reqCol
+    · unfold atomRowCore firstModelGate rowCells bindS rowResNum rowChain reqCol
       simp only [Bool.false_eq_true, if_false, hv, he, h19, h16, h14, hc, hn, h24, h25]
       split
       · exact ⟨(colUsize ((vals[18]?).join)).err ++ (colIsize ((vals[22]?).join)).err, by simp only [List.append_assoc]⟩
@@ -171,7 +171,7 @@ theorem C02_author_chain_preferred (b : Bool) (s : AState) (vals : List (Option 
   have hne : ∀ i, i ≠ 10 → (vals.set 10 v')[i]? = vals[i]? := by
     intro i hi
     rw [List.getElem?_set_ne (by omega)]
-  unfold atomRowCore firstModelGate rowCells rowResNum rowChain reqCol placeRow rowOptional placeAtom rowModel withTensor
+  unfold atomRowCore firstModelGate rowCells bindS rowResNum rowChain reqCol placeRow rowOptional placeAtom rowModel withTensor
   simp only [range9, List.map_cons, List.map_nil, Nat.zero_add, Nat.reduceAdd,
     hne 0 (by decide), hne 1 (by decide), hne 2 (by decide), hne 3 (by decide), hne 4 (by decide), hne 5 (by decide),
     hne 6 (by decide), hne 7 (by decide), hne 8 (by decide), hne 9 (by decide), hne 11 (by decide), hne 12 (by decide),
@@ -187,7 +187,7 @@ theorem C02_author_number_preferred (b : Bool) (s : AState) (vals : List (Option
   have hne : ∀ i, i ≠ 21 → (vals.set 21 v')[i]? = vals[i]? := by
     intro i hi
     rw [List.getElem?_set_ne (by omega)]
-  unfold atomRowCore firstModelGate rowCells rowResNum rowChain reqCol placeRow rowOptional placeAtom rowModel withTensor
+  unfold atomRowCore firstModelGate rowCells bindS rowResNum rowChain reqCol placeRow rowOptional placeAtom rowModel withTensor
   simp only [range9, List.map_cons, List.map_nil, Nat.zero_add, Nat.reduceAdd,
     hne 0 (by decide), hne 1 (by decide), hne 2 (by decide), hne 3 (by decide), hne 4 (by decide), hne 5 (by decide),
     hne 6 (by decide), hne 7 (by decide), hne 8 (by decide), hne 9 (by decide), hne 10 (by decide), hne 11 (by decide),
